@@ -4,7 +4,7 @@ PATCH="$1"; ID="$2"; TIER="${3:-quick}"
 cd /repo || exit 2
 if [ -n "$(git status --porcelain --untracked-files=no)" ]; then echo "repo not clean"; exit 2; fi
 if ! git apply --check "$PATCH" 2>/dev/null; then
-  if ! git apply --3way "$PATCH" 2>/dev/null; then echo "PATCH DOES NOT APPLY: $PATCH"; git checkout -- . ; exit 3; fi
+  if ! git apply --3way "$PATCH" 2>/dev/null; then echo "PATCH DOES NOT APPLY: $PATCH"; git reset -q --hard HEAD; exit 3; fi
 else
   git apply "$PATCH"
 fi
